@@ -3,7 +3,11 @@ import FxVerif.Model.C17Proc
 import FxVerif.Model.C17Machine
 import FxVerif.Model.C17Float
 import FxVerif.Model.C17Sort
+import FxVerif.Model.C17Ack
+import FxVerif.Model.C17Cache
 import FxVerif.Proofs.C17
+import FxVerif.Proofs.C17Ack
+import FxVerif.Proofs.C17Cache
 import FxVerif.Proofs.C17Float
 import FxVerif.Proofs.C17Sort
 /-!
@@ -23,6 +27,14 @@ a cache whose hit is cheaper than its miss (`cached_gas_breaks_determinism`).
 iteration orders) ends in the same state with the same outputs for all schedules and all operation lists
 (`run_schedule_independent`); the variant of `UpdateProposalOracles` that collects the oracles to unbond by ranging over a
 map does not (`mapFed_unbond_schedule_dependent`); which variant the source has is regenerated (`unbond_order_from_store`).
+(h) a JSON oneof is resolved by the dependency in MAP order (regenerated fact): every JSON decode into a oneof-carrying message
+is followed by the canonical-encoding check (`decode_sites_covered`); the REGENERATED statement program of the IBC middleware's
+acknowledgement callback, interpreted under adversarial schedules, gives the same state, gas and result for all schedules and all
+byte strings (`ack_canonical_first_schedule_independent`, `ack_source_schedule_independent`), and does not without the check or
+with the check after the inner call (`ack_unchecked_schedule_dependent`, `ack_check_after_inner_gas_dependent`).
+(i) caches of STATE-DERIVED data: the node theorem for invariants relating memory and state, with the hypothesis about discarded
+executions explicit (`coherent_cache_process_history_irrelevant`); the write-through cache of the seeded shape is invisible exactly
+as long as nothing it executed is discarded (`writeThrough_cache_invisible_without_discards`, `writeThrough_cache_breaks_determinism`).
 Scheduler-, allocator- and dependency-level nondeterminism is outside the model: validated by repeated-process runs.
 -/
 namespace FxVerif.Props.C17
@@ -46,6 +58,12 @@ environment read outside the package initialisation of `types` anywhere in the s
 theorem no_pointer_format_no_process_value :
     sites.all (fun s => s.kind != "pointerFormat" && s.kind != "procValue" && s.kind != "rand" && s.kind != "go" && s.kind != "select" &&
       (s.kind != "envRead" || (s.pkg == "types" && s.func == "init"))) = true := by decide
+
+/-- no clock / random / environment / process-value source — nor a dependency wrapper of one — is used as a function VALUE
+(stored in a field, passed as an argument, returned) anywhere in the module packages; the only such use is the reviewed
+query entry point in the node wiring of `app` -/
+theorem source_function_values_reviewed :
+    valueSites.all valueCovered = true ∧ valueSites.all (fun s => s.pkg == "app") = true := by decide
 
 /-- the statement as it was before wrappers and process values were inventoried: no direct `time.Now/Since/Until`, no
 goroutine, `select` or random-number call at all -/
@@ -493,7 +511,7 @@ theorem sorter_unique {α : Type} (le : α → α → Bool) (s₁ s₂ : Sorter 
     exact anti a b ((s₁.perm l₁).mem_iff.mp ha) ((s₁.perm l₁).mem_iff.mp hb)
 
 /-- the generic statement behind class `wholeElement`: a comparator program (ANY key list, interpreted by `cmpRec` on records
-with arbitrarily many numeric / text fields) whose keys cover every field of the element type cannot leave two distinct
+with arbitrarily many fields of kind unsigned / big number, text, signed number, boolean or byte string) whose keys cover every field of the element type cannot leave two distinct
 elements unseparated -/
 theorem cover_separates (keys : List SortKey) (fields : List String) (a b : Rec) (ha : a.map (·.1) = fields)
     (hb : b.map (·.1) = fields) (hn : fields.Nodup) (hcov : ∀ f ∈ fields, ∃ k ∈ keys, k.field = f)
@@ -598,7 +616,189 @@ theorem env_value_in_output_breaks_determinism :
     ∃ (m₁ m₂ : Nat), (Replica.run ⟨envLeakHandler, m₁, [Ev.deliver "tx"]⟩ 0) ≠ (Replica.run ⟨envLeakHandler, m₂, [Ev.deliver "tx"]⟩ 0) :=
   ⟨0xc000012340, 0xc000456780, by decide⟩
 
+/-! ## (h) a JSON oneof decoded in map order: the acknowledgement callback of the IBC middleware -/
+
+theorem decode_sites_covered : decodeSites.all decodeCovered = true := by decide
+
+theorem jsonpb_oneof_order_is_map : jsonpbOneofOrder = "map" := by decide
+
+theorem ack_program_canonical_first : ackSteps.take 2 = [.decode, .canon] ∧ ackSteps.all (· != .other) = true := by decide
+
+theorem ack_canonical_first_schedule_independent (rest : List AStep) (σ₁ σ₂ : Sched) (st : ASt) (amount : Nat) (raw : Raw) :
+    runAck (.decode :: .canon :: rest) σ₁ st amount raw = runAck (.decode :: .canon :: rest) σ₂ st amount raw := by
+  unfold runAck
+  simp only [runSteps, stepAck]
+  cases h₁ : decodeAck σ₁ st.ranges raw with
+  | none =>
+    have h₂ := (FxVerif.Proofs.C17.decode_isNone σ₁ σ₂ st.ranges st.ranges raw).mp h₁
+    simp only [h₂]
+  | some d₁ =>
+    cases h₂ : decodeAck σ₂ st.ranges raw with
+    | none =>
+      have := (FxVerif.Proofs.C17.decode_isNone σ₂ σ₁ st.ranges st.ranges raw).mp h₂
+      rw [h₁] at this
+      exact absurd this (by simp)
+    | some d₂ =>
+      simp only []
+      by_cases hc : raw = canonOf d₁
+      · have hd : d₂ = d₁ := by
+          rw [hc, FxVerif.Proofs.C17.decode_canon] at h₂
+          exact (Option.some.inj h₂).symm
+        subst hd
+        simp only [hc, if_true]
+        rw [FxVerif.Proofs.C17.runSteps_canon σ₁ σ₂ d₂ amount rest]
+      · have hc₂ : ¬ raw = canonOf d₂ := by
+          intro h
+          rw [h, FxVerif.Proofs.C17.decode_canon] at h₁
+          exact hc (by rw [h, Option.some.inj h₁])
+        simp only [hc, hc₂, if_false]
+
+
+/-- … hence the callback of the source as it is now: same state, same gas, same result for every schedule of map iteration
+orders and every acknowledgement byte string -/
+theorem ack_source_schedule_independent (σ₁ σ₂ : Sched) (st : ASt) (amount : Nat) (raw : Raw) :
+    runAck ackSteps σ₁ st amount raw = runAck ackSteps σ₂ st amount raw := by
+  have h : ackSteps = .decode :: .canon :: ackSteps.drop 2 := by decide
+  rw [h]
+  exact ack_canonical_first_schedule_independent _ σ₁ σ₂ st amount raw
+
+/-- the callback as it was before the check: the wrapped application and the middleware each decode an acknowledgement that
+carries both arms in map order — two schedules give different states for the same bytes -/
+theorem ack_unchecked_schedule_dependent :
+    runAck [.inner, .decode, .dataDecode, .hook, .ret] Sched.id ⟨0, 0, 0, 0, 0⟩ 5 bothArms ≠
+    runAck [.inner, .decode, .dataDecode, .hook, .ret] Sched.rev ⟨0, 0, 0, 0, 0⟩ 5 bothArms := by decide
+
+/-- … and within ONE execution the two decoders can disagree: the ICS-20 application refunds the escrow (error arm) while
+the middleware's hook takes the same bytes for a success (the shape of the defect repaired by the canonical check) -/
+theorem ack_unchecked_arms_disagree_within_one_call :
+    (runAck [.inner, .decode, .dataDecode, .hook, .ret] Sched.alt ⟨0, 0, 0, 0, 0⟩ 5 bothArms).1.bankRefund = 5 ∧
+    (runAck [.inner, .decode, .dataDecode, .hook, .ret] Sched.alt ⟨0, 0, 0, 0, 0⟩ 5 bothArms).1.hookRefund = 0 ∧
+    (runAck [.inner, .decode, .dataDecode, .hook, .ret] Sched.alt ⟨0, 0, 0, 0, 0⟩ 5 bothArms).1.hookSuccess = 1 := by decide
+
+/-- the ORDER of the statements matters: with the check after the inner call the acknowledgement transaction fails under
+both schedules — but the wrapped application has already run on the arm its own decode picked, so the gas the failed
+transaction reports (part of the results hash) differs -/
+theorem ack_check_after_inner_gas_dependent :
+    (runAck [.decode, .inner, .canon, .dataDecode, .hook, .ret] Sched.id ⟨0, 0, 0, 0, 0⟩ 5 bothArms).2 = some "not-canonical" ∧
+    (runAck [.decode, .inner, .canon, .dataDecode, .hook, .ret] Sched.rev ⟨0, 0, 0, 0, 0⟩ 5 bothArms).2 = some "not-canonical" ∧
+    (runAck [.decode, .inner, .canon, .dataDecode, .hook, .ret] Sched.id ⟨0, 0, 0, 0, 0⟩ 5 bothArms).1.gas ≠
+    (runAck [.decode, .inner, .canon, .dataDecode, .hook, .ret] Sched.rev ⟨0, 0, 0, 0, 0⟩ 5 bothArms).1.gas := by decide
+
+/-! ## (i) caches of state-derived data -/
+
+theorem coherent_cache_process_history_irrelevant {M S I O : Type} (h : Handler M S I O) (m₀ : M) (Inv : M → S → Prop)
+    (hinit : ∀ s, Inv m₀ s)
+    (hdel : ∀ m s i, Inv m s → Inv (h m s i).1 (h m s i).2.1)
+    (hserve : ∀ m s i, Inv m s → Inv (h m s i).1 s)
+    (hindep : ∀ m m' s i, Inv m s → Inv m' s → (h m s i).2 = (h m' s i).2)
+    (evs₁ evs₂ : List (Ev I)) (hb : blocksOf evs₁ = blocksOf evs₂) (n₁ n₂ : Node M S) (hs : n₁.st = n₂.st)
+    (h₁ : Inv n₁.mem n₁.st) (h₂ : Inv n₂.mem n₂.st) :
+    (runEvs h m₀ n₁ evs₁).1.st = (runEvs h m₀ n₂ evs₂).1.st ∧ (runEvs h m₀ n₁ evs₁).2 = (runEvs h m₀ n₂ evs₂).2 := by
+  have r₁ := FxVerif.Proofs.C17.run_eq_pure_coherent h m₀ Inv hinit hdel hserve hindep evs₁ n₁ h₁
+  have r₂ := FxVerif.Proofs.C17.run_eq_pure_coherent h m₀ Inv hinit hdel hserve hindep evs₂ n₂ h₂
+  rw [r₁.1, r₁.2, r₂.1, r₂.2, hb, hs]
+  exact ⟨rfl, rfl⟩
+
+/-- a cache that is validated against the store record on every use (content-addressed memo of a pure decoder) is invisible -/
+theorem validated_cache_process_history_irrelevant (dec : Nat → Nat) (evs₁ evs₂ : List (Ev PairMsg)) (hb : blocksOf evs₁ = blocksOf evs₂)
+    (mem₁ mem₂ : List (Nat × Nat)) (v₁ : ∀ e ∈ mem₁, e.2 = dec e.1) (v₂ : ∀ e ∈ mem₂, e.2 = dec e.1) (s : Pairs) :
+    (runEvs (validatedHandler dec) [] ⟨mem₁, s⟩ evs₁).1.st = (runEvs (validatedHandler dec) [] ⟨mem₂, s⟩ evs₂).1.st ∧
+    (runEvs (validatedHandler dec) [] ⟨mem₁, s⟩ evs₁).2 = (runEvs (validatedHandler dec) [] ⟨mem₂, s⟩ evs₂).2 := by
+  have key : ∀ (m : List (Nat × Nat)) (st : Pairs) (i : PairMsg), (∀ e ∈ m, e.2 = dec e.1) →
+      (validatedHandler dec m st i).2 = (noCacheDec dec st i) ∧ (∀ e ∈ (validatedHandler dec m st i).1, e.2 = dec e.1) := by
+    intro m st i hm
+    cases i with
+    | register k v ok => exact ⟨rfl, hm⟩
+    | remove k ok => exact ⟨rfl, hm⟩
+    | use k =>
+      simp only [validatedHandler, noCacheDec]
+      cases hg : pget st k with
+      | none => exact ⟨rfl, hm⟩
+      | some raw =>
+        simp only []
+        cases hf : m.find? (fun e => e.1 == raw) with
+        | none =>
+          refine ⟨rfl, ?_⟩
+          intro e he
+          rcases mem_cons.mp he with h1 | h1
+          · rw [h1]
+          · exact hm e h1
+        | some e =>
+          have hmem := mem_of_find?_eq_some hf
+          have hk : e.1 = raw := by simpa using find?_some hf
+          simp only []
+          rw [hm e hmem, hk]
+          exact ⟨rfl, hm⟩
+  exact coherent_cache_process_history_irrelevant (validatedHandler dec) [] (fun m _ => ∀ e ∈ m, e.2 = dec e.1) (by simp)
+    (fun m s i hm => (key m s i hm).2) (fun m s i hm => (key m s i hm).2)
+    (fun m m' s i hm hm' => by rw [(key m s i hm).1, (key m' s i hm').1]) evs₁ evs₂ hb _ _ rfl v₁ v₂
+
+
+/-- the seeded shape (a process-local map written through by the setters): a registration executed on a DISCARDED branch —
+a served simulation, or a delivered transaction that fails after the write — stays in the map; nodes with equal block
+histories then answer a use of the pair differently (from the map vs from the store), also with a stale value -/
+theorem writeThrough_cache_breaks_determinism :
+    (runEvs writeThroughHandler [] ⟨[], []⟩ [.serve (.register "p" 7 true), .deliver (.use "p")]).2 ≠
+      (runEvs writeThroughHandler [] ⟨[], []⟩ [.deliver (.use "p")]).2 ∧
+    (runEvs writeThroughHandler [] ⟨[], []⟩ [.deliver (.register "p" 7 false), .deliver (.use "p")]).2 ≠
+      (runEvs writeThroughHandler [] ⟨[], []⟩ [.deliver (.register "p" 7 false), .restart, .deliver (.use "p")]).2 ∧
+    (runEvs writeThroughHandler [] ⟨[], [("p", 7)]⟩ [.serve (.register "p" 9 true), .deliver (.use "p")]).2 ≠
+      (runEvs writeThroughHandler [] ⟨[], [("p", 7)]⟩ [.deliver (.use "p")]).2 := by decide
+
+/-- it is hypothesis (3) of `coherent_cache_process_history_irrelevant` that the write-through cache violates: a discarded
+execution leaves memory that no longer mirrors the (unchanged) state -/
+theorem writeThrough_violates_discard_hypothesis :
+    ¬ (∀ (m s : Pairs) (i : PairMsg), coherent m s → coherent (writeThroughHandler m s i).1 s) := by
+  intro h
+  have := h [] [] (.register "p" 7 true) (by intro k v hk; simp [pget] at hk) "p" 7 (by decide)
+  simp [pget] at this
+
+/-- … and ONLY discarded executions expose it: on process histories in which every executed write is committed (delivered
+transactions that succeed, lookups — delivered or served —, restarts; no served / failing registration or removal) the
+write-through cache is invisible: nodes with any coherent caches and equal block histories agree on state and outputs -/
+theorem writeThrough_cache_invisible_without_discards (evs₁ evs₂ : List (Ev PairMsg))
+    (c₁ : ∀ e ∈ evs₁, committing e = true) (c₂ : ∀ e ∈ evs₂, committing e = true) (hb : blocksOf evs₁ = blocksOf evs₂)
+    (m₁ m₂ s : Pairs) (h₁ : coherent m₁ s) (h₂ : coherent m₂ s) :
+    (runEvs writeThroughHandler [] ⟨m₁, s⟩ evs₁).1.st = (runEvs writeThroughHandler [] ⟨m₂, s⟩ evs₂).1.st ∧
+    (runEvs writeThroughHandler [] ⟨m₁, s⟩ evs₁).2 = (runEvs writeThroughHandler [] ⟨m₂, s⟩ evs₂).2 := by
+  have hinit : ∀ s : Pairs, coherent [] s := by intro s k v hk; simp [pget] at hk
+  have hdel : ∀ (m s : Pairs) (i : PairMsg), committing (.deliver i) = true → coherent m s →
+      coherent (writeThroughHandler m s i).1 (writeThroughHandler m s i).2.1 := by
+    intro m s i hc hm
+    cases i with
+    | register k v ok =>
+      simp only [committing] at hc; subst hc
+      exact FxVerif.Proofs.C17.coherent_pset m s k v hm
+    | remove k ok =>
+      simp only [committing] at hc; subst hc
+      exact FxVerif.Proofs.C17.coherent_pdel m s k hm
+    | use k =>
+      have := FxVerif.Proofs.C17.writeThrough_use m s k hm
+      rw [this.1]; exact this.2
+  have hserve : ∀ (m s : Pairs) (i : PairMsg), committing (.serve i) = true → coherent m s → coherent (writeThroughHandler m s i).1 s := by
+    intro m s i hc hm
+    cases i with
+    | register k v ok => simp [committing] at hc
+    | remove k ok => simp [committing] at hc
+    | use k => exact (FxVerif.Proofs.C17.writeThrough_use m s k hm).2
+  have hindep : ∀ (m m' s : Pairs) (i : PairMsg), coherent m s → coherent m' s →
+      (writeThroughHandler m s i).2 = (writeThroughHandler m' s i).2 := by
+    intro m m' s i hm hm'
+    cases i with
+    | register k v ok => rfl
+    | remove k ok => rfl
+    | use k => rw [(FxVerif.Proofs.C17.writeThrough_use m s k hm).1, (FxVerif.Proofs.C17.writeThrough_use m' s k hm').1]
+  have r₁ := FxVerif.Proofs.C17.run_eq_pure_coherent_on writeThroughHandler [] coherent (fun e => committing e = true)
+    hinit hdel hserve hindep evs₁ ⟨m₁, s⟩ c₁ h₁
+  have r₂ := FxVerif.Proofs.C17.run_eq_pure_coherent_on writeThroughHandler [] coherent (fun e => committing e = true)
+    hinit hdel hserve hindep evs₂ ⟨m₂, s⟩ c₂ h₂
+  rw [r₁.1, r₁.2, r₂.1, r₂.2, hb]
+  exact ⟨rfl, rfl⟩
+
+
 -- non-vacuity
+example : committing (.deliver (.register "p" 7 true)) = true ∧ committing (.serve (.register "p" 7 true)) = false ∧
+    committing (.deliver (.register "p" 7 false)) = false ∧ committing (.serve (.use "p")) = true := by decide
 example : procSites.length ≥ 5 := by decide
 example : sliceFeeders.length ≥ 2 := by decide
 example : (run Sched.id ⟨[⟨"o1", 1, true, 5⟩, ⟨"o2", 1, true, 5⟩, ⟨"o3", 10, true, 5⟩], ["o1", "o2", "o3"], 7, [], [], 0⟩
@@ -609,6 +809,10 @@ example : sortSites.length ≥ 5 := by decide
 example : meetsSortContract missedLe [⟨0, "a"⟩, ⟨3, "b"⟩, ⟨0, "c"⟩] [⟨3, "b"⟩, ⟨0, "c"⟩, ⟨0, "a"⟩] = true ∧
     meetsSortContract missedLe [⟨0, "a"⟩, ⟨3, "b"⟩] [⟨0, "a"⟩, ⟨3, "b"⟩] = false := by decide
 example : (sortSites.filter (fun s => (sortClassify s).map (·.1) == some .wholeElement)).length ≥ 3 := by decide
+example : cmpRec [⟨"Online", true, "bool"⟩, ⟨"Key", false, "bytes"⟩, ⟨"Delta", false, "int"⟩] [("Online", .bool true), ("Key", .bytes [1, 2]), ("Delta", .int (-3))]
+    [("Online", .bool false), ("Key", .bytes [0]), ("Delta", .int 4)] = .lt ∧
+  cmpRec [⟨"Online", true, "bool"⟩, ⟨"Key", false, "bytes"⟩, ⟨"Delta", false, "int"⟩] [("Online", .bool true), ("Key", .bytes [1, 2]), ("Delta", .int (-3))]
+    [("Online", .bool true), ("Key", .bytes [1, 2]), ("Delta", .int 4)] = .lt := by decide
 example : cmpRec oracleSetKeys (memberRec 5 "0xa") (memberRec 5 "0xb") = .lt ∧ cmpRec oracleSetKeys (memberRec 5 "0xa") (memberRec 7 "0x0") = .gt := by decide
 example : sortMemberRecs [memberRec 5 "0xb", memberRec 7 "0xc", memberRec 5 "0xa"] = [memberRec 7 "0xc", memberRec 5 "0xa", memberRec 5 "0xb"] := by decide
 example : render (2 ^ 32 - 1) = 10 ^ 8 ∧ showFixed 8 (render 123456789012) = "28.74452366" := by decide
@@ -621,5 +825,13 @@ example : absSum [3, -4, 0] = 7 := by decide
 example : powerDiffNumerator [("a", 5), ("b", 7)] [("b", 2), ("c", 4)] = 5 + 5 + 4 := by decide
 example : tokenTotals [("b", 2, 10), ("a", 1, 5), ("b", 3, 7)] "b" = (5, 17, 2) := by decide
 example : tally [(1, 0, 0, 0, 1), (0, 2, 0, 0, 2)] = (1, 2, 0, 0, 3) := by decide
+example : decodeSites.length ≥ 4 ∧ (decodeSites.filter (fun d => !d.oneofs.isEmpty)).length ≥ 1 := by decide
+example : ackSteps = [.decode, .canon, .inner, .dataDecode, .hook, .ret] := by decide
+example : runAck ackSteps Sched.rev ⟨0, 0, 0, 0, 0⟩ 5 bothArms = (⟨0, 0, 0, 0, 1⟩, some "not-canonical") := by decide
+example : runAck ackSteps Sched.rev ⟨0, 0, 0, 0, 0⟩ 5 (canonOf (some (.error "x"))) = (⟨5, 5, 0, 10, 2⟩, none) := by decide
+example : runAck ackSteps Sched.id ⟨0, 0, 0, 0, 0⟩ 5 (canonOf (some (.result "AQ=="))) = (⟨0, 0, 1, 1, 2⟩, none) := by decide
+example : runAck ackSteps Sched.id ⟨0, 0, 0, 0, 0⟩ 5 ⟨[("result", "AQ==")], 1⟩ = (⟨0, 0, 0, 0, 1⟩, some "not-canonical") := by decide
+example : (runEvs (validatedHandler (· + 1)) [] ⟨[], [("p", 7)]⟩ [.serve (.register "p" 9 true), .deliver (.use "p"), .deliver (.use "q")]).2 = [some 8, none] := by decide
+example : coherent [("p", 7)] [("p", 7)] := fun _ _ h => h
 
 end FxVerif.Props.C17
